@@ -9,6 +9,7 @@ CONSTANTS
   SwPtrFreshCtx = TRUE
   SwNestedSourceTag = TRUE
   SwEmptyRecordSourceTag = TRUE
+  SwFlatNested = TRUE
   SwRunAllTests = TRUE
   SwSoftPT = "run"
 INIT Init
